@@ -58,6 +58,9 @@ def _is_prefix(key, k2):
 
 
 _BASE = re.compile(r"^(len:|\*|src:)?_(\d+)")
+_STD_VARIANT_INDEX = {("Result", "Ok"): 0, ("Result", "Err"): 1, ("Option", "None"): 0, ("Option", "Some"): 1,
+                      ("ControlFlow", "Continue"): 0, ("ControlFlow", "Break"): 1}
+_VARIANT_KEY = re.compile(r"^(.+)@(\w+)\.[\w.@]*$")
 
 NEG = {"Lt": "Ge", "Ge": "Lt", "Gt": "Le", "Le": "Gt", "Eq": "Ne", "Ne": "Eq"}
 
@@ -989,6 +992,18 @@ class Analyzer(Analysis):
                     return
                 elif v is not None and v[0] == "adt" and v[2] in ("Ok", "Some"):
                     result = ("adt", "ControlFlow", "Continue", (), ())
+                elif v is not None and v[0] == "adt" and v[2] in ("Err", "None"):
+                    result = ("adt", "ControlFlow", "Break", (), ())
+                elif v is None and args[0]["o"] in ("copy", "move"):
+                    # variant not known here (e.g. after a join of an Err and an Ok path): the Continue payload, when the
+                    # result is Continue, is still the Ok / Some payload of the argument
+                    self.write(st, dest_key, None)
+                    ak = self.key_of(st, args[0]["pl"], bi, -1)
+                    self.copy_tree(st, ak + "@Ok", dest_key + "@Continue")
+                    self.copy_tree(st, ak + "@Some", dest_key + "@Continue")
+                    if self.final:
+                        self.events.append(ev)
+                    return
                 handled = True
             elif "::FromResidual<" in name and name.endswith("::from_residual"):
                 # `?` on the error path: the function returns the converted residual
@@ -1569,10 +1584,15 @@ class Analyzer(Analysis):
                     s2.facts.add(f)
                 out.append((t["otherwise"], s2))
             elif d is not None and d[0] == "discr" and d[1][0] == "adt":
-                # statically known variant (e.g. matching on a literal Ok(..))
-                for v, tgt in arms:
-                    out.append((tgt, st.copy()))
-                out.append((t["otherwise"], st.copy()))
+                # statically known variant (e.g. matching on a literal Ok(..), or the Err a helper returned on this path)
+                ix = _STD_VARIANT_INDEX.get((d[1][1], d[1][2]))
+                if ix is not None:
+                    hit = [tgt for v, tgt in arms if v == ix]
+                    out.append((hit[0] if hit else t["otherwise"], st.copy()))
+                else:
+                    for v, tgt in arms:
+                        out.append((tgt, st.copy()))
+                    out.append((t["otherwise"], st.copy()))
             elif d is not None and d[0] == "discr" and d[1][0] == "place" and self.force and d[1][1] in self.force:
                 want = self.force[d[1][1]]
                 hit = [tgt for v, tgt in arms if v == want]
@@ -1609,6 +1629,27 @@ class Analyzer(Analysis):
         store = {}
         phis = {}
         live = self.live_in[B[0]] if isinstance(B, tuple) else None
+        # payload of variant V of an enum-valued place: states in which the place holds a different variant do not
+        # constrain it (a helper returning `Err(..)` on one path and `Ok(x)` on another: x survives the join)
+        allk = set()
+        for S in cleaned:
+            allk |= set(S.store.keys())
+        for k in allk - keys:
+            m = _VARIANT_KEY.match(k)
+            if not m:
+                continue
+            base, var = m.group(1), m.group(2)
+            have = [S.store[k] for S in cleaned if k in S.store]
+            others_ok = True
+            for S in cleaned:
+                if k in S.store:
+                    continue
+                bv = S.store.get(base)
+                if not (bv is not None and bv[0] == "adt" and bv[2] != var):
+                    others_ok = False
+                    break
+            if others_ok and have and all(v == have[0] for v in have[1:]) and have[0] is not None and own not in repr(have[0]):
+                store[k] = have[0]
         for k in keys:
             if live is not None:
                 m = _BASE.match(k)
@@ -1904,6 +1945,7 @@ class Analyzer(Analysis):
         pos = {n: i for i, n in enumerate(order)}
         self.modes = self.mode_locals()
         self.live_in, self.always_live = self.liveness()
+        self.always_live = set(self.always_live) | set(self.modes)     # partition flags survive joins even when never read
         self.cands = {}
         self.join_info = {}
         self.dead_cands = {}
@@ -1940,7 +1982,8 @@ class Analyzer(Analysis):
                     # trace partitioning on mode flags; the remainder of the iteration in which a flag
                     # changes is peeled ("e" phase) and rejoins the steady state at the next back edge
                     mk = self.mode_key(s2)
-                    if mk != node[1][0]:
+                    # a flag receiving its first value (None -> c) is initialisation, not a transition
+                    if any(a is not None and a != b2 for a, b2 in zip(node[1][0], mk)):
                         phase = "e"
                     elif node[1][1] == "e" and pos.get(s, 0) <= pos.get(bi, 0):
                         phase = "s"
@@ -2003,6 +2046,17 @@ class Analyzer(Analysis):
             rep = bad[0] if bad else lst[0]
             obs.append(rep)
         self.obligations = sorted(obs, key=lambda o: (pos.get(o.bi, 0)))
+        # a block analysed in several partitions describes one program point: keep its first description
+        self.events_all = list(self.events)
+        for attr in ("emits", "reads", "events"):
+            seen_bi = set()
+            uniq = []
+            for e in getattr(self, attr):
+                if e["bi"] in seen_bi:
+                    continue
+                seen_bi.add(e["bi"])
+                uniq.append(e)
+            setattr(self, attr, uniq)
         if not converged:
             for o in self.obligations:
                 if o.ok and o.why != "A-OVF":
